@@ -11,7 +11,8 @@ incarnation; the phi-accrual suspicion level never decreases while no heartbeat 
 
 Observables: `get_member_state(x)` (and the member's incarnation) of node `a` for every `x` — a
 *row* — after every delivered event; which nodes have been crashed by the harness; send and delivery
-times of every message; sampled `phi(now)` values.
+times of every message, and which messages the network refused to route (`is_partitioned`);
+sampled `phi(now)` values (IEEE-754 bit patterns).
 -/
 namespace HappyModel.C13.Spec
 open HappyModel.C13
@@ -36,6 +37,32 @@ def noDeadLive (crashed : List Bool) (a : Nat) (row : List MState) : Bool :=
 def reviveOk (old new : Cell) : Bool :=
   !(old.st == .dead && new.st == .alive && new.inc ≤ old.inc)
 
+/-! clause 3 over the *whole history* of a cell: once DEAD has been reported at incarnation `k`, no
+later report — however many SUSPECT/DEAD reports lie in between — is ALIVE with incarnation `≤ k`. -/
+
+/-- the highest incarnation at which the cell has been reported DEAD so far -/
+def noteDead (d : Option Nat) (c : Cell) : Option Nat :=
+  if c.st == .dead then
+    some (match d with | none => c.inc | some k => max k c.inc)
+  else d
+
+/-- is a report admissible, DEAD having been reported at incarnation `d` before -/
+def aliveOk (d : Option Nat) (c : Cell) : Bool :=
+  match d with
+  | none => true
+  | some k => !(c.st == .alive && c.inc ≤ k)
+
+/-- clause 3 on the list of successive reports of one cell (what the judge evaluates, one report at
+    a time).  `reviveTrace_iff_pairwise` (HappyProofs) shows it is the same as `reviveOk` for every
+    earlier/later pair of reports. -/
+def reviveTrace : Option Nat → List Cell → Bool
+  | _, [] => true
+  | d, c :: cs => aliveOk d c && reviveTrace (noteDead d c) cs
+
+/-- "the network delivers every message": nothing was refused by the network (no message crossed
+    an active partition).  Clauses 1 and 2 speak about such runs only. -/
+def lossless (refused : Nat) : Bool := refused == 0
+
 /-- number of probe ticks after which an un-answering member must have been probed again by a node
     of an `n`-cluster in which at most `k` members crash: every pass over the probe order has at
     most `n-1` ticks, a member can be skipped in a pass only when another member turns DEAD -/
@@ -54,6 +81,21 @@ def detectedRow (n k interval half delta : Nat) (crashAt : List (Option Nat)) (a
     match lget none crashAt x with
     | none => true
     | some c => t ≤ detectDeadline n k interval half delta c || lget MState.alive row x != .alive
+
+/-- a reported phi value (bit pattern of a binary64) as a `PV`.  Non-negative finite doubles are
+    ordered exactly like their bit patterns, so the pattern itself serves as the (scaled) value;
+    `0x7FF0000000000000` is `+∞`, `0x8000000000000000` is `-0.0 = 0`; negative numbers and NaNs are
+    not suspicion levels. -/
+def pvOfBits (b : Nat) : Option PV :=
+  if b < 0x7FF0000000000000 then some (.fin b)
+  else if b = 0x7FF0000000000000 then some .inf
+  else if b = 0x8000000000000000 then some (.fin 0)
+  else none
+
+def pvLe (a b : PV) : Bool := decide (PV.le a b)
+
+/-- strictly below (`phi < threshold`, what `is_available` must report) -/
+def pvLt (a b : PV) : Bool := !pvLe b a
 
 /-- clause 4: a list of samples is non-decreasing w.r.t. a decidable order -/
 def nondecreasing {α} (le : α → α → Bool) : List α → Bool
